@@ -41,6 +41,11 @@ for (mode, P, J, R, cx) in configs:
                 if rr == r and any(m.get(j) != e[j][0] for j in range(J)): bad = "round %d: map on rank %d is not truthful" % (r, p)
             if mode == "skel" and any((p, r) not in maps for p in range(P)) and J > 0: bad = "round %d: a rank returned no map" % r
         if bad: res["violations"].append(dict(key="C16:real-mpi:oracle:%s" % mode, what=bad, case=" ".join(cmd))); continue
+        if sig.strip() not in explored[key] and "#delayed-explored" not in explored[key]:
+            # only instant delivery was explored for this configuration: the real run may have seen a delivery timing outside that model
+            res["unvalidated"] = res.get("unvalidated", 0) + 1
+            if len(res["samples"]) < 6: res["samples"].append("UNVALIDATED (configuration explored with instant delivery only): real outcome '%s' of %s" % (sig.strip(), key))
+            continue
         if sig.strip() not in explored[key]:
             res["engine_errors"].append("real outcome '%s' of %s was not produced by the exploration (explored: %s)" % (sig.strip(), key, sorted(explored[key])[:6])); continue
         res["validated"] += 1; seen.add((key, sig.strip()))
